@@ -29,6 +29,8 @@ type Plan struct {
 	Sequential bool `json:"sequential,omitempty"`
 	// Race enables the happens-before detector (worlds built with the yield pass).
 	Race bool `json:"race,omitempty"`
+	// SlowWrites: the server's ResponseWriter yields before consuming each Write.
+	SlowWrites bool `json:"slow_writes,omitempty"`
 
 	// Mock seam (C20): results of the generated mock's rand.Intn calls; crypto/rand failure.
 	MockInts       []int `json:"mock_ints,omitempty"`
